@@ -308,6 +308,11 @@ def run_tierwise(case):
     tg = mk_tg(spec)
     clean = all((t["minT"], t["maxT"]) == (spec["minT"], spec["maxT"]) for t in spec["tiers"])
     kind = op["kind"]
+    if kind == "insert":
+        from props.c08 import _unrepresentable_split
+        if any(_unrepresentable_split(t, op["s"], op["d"], op["mode"]) for t in spec["tiers"]):
+            # (as in C08: a split piece narrower than the float resolution at its shifted position cannot be represented)
+            return {"classes": ["skipped_unrepresentable_split_piece"], "nontrivial": False}
     with quiet():
         if kind == "crop":
             f = lambda x: x.crop(op["a"], op["b"], op["mode"], op["rebase"])
